@@ -601,6 +601,36 @@ fn record(args: &[String], out: &mut Out) {
         let mut i = 0;
         while alive && i < len {
             i += 1;
+            // once per roomy allocator: the interpreter's GC pattern - transparent checkpoint, a value derived
+            // from old bytes (substring of an older heap atom) or a fresh small one, >= 1024 bytes of garbage,
+            // then maybe_restore_with_node keeping that value (reaches Replace via AfterOldBytes / clone)
+            if i == len / 2 && hl > 4000 && s.cps.len() < 4 {
+                let old_heap: Vec<usize> = s.live_atoms().into_iter().filter(|k| s.h[k - 1].object_type() == ObjectType::Bytes && s.a.atom_len(s.h[k - 1]) >= 2).collect();
+                let mut script: Vec<Value> = vec![json!({"op": "tcheckpoint"})];
+                match r.below(3) {
+                    0 if !old_heap.is_empty() => {
+                        let n = *r.pick(&old_heap);
+                        let l = s.a.atom_len(s.h[n - 1]) as i64;
+                        let a = r.range(0, l - 1);
+                        script.push(json!({"op": "new_substr", "n": n, "s": a, "e": r.range(a + 1, l)}));
+                    }
+                    1 => script.push(json!({"op": "new_atom", "b": bytes_json(&r.bytes(*r.pick(&[5usize, 47, 48, 49])))})),
+                    _ => script.push(json!({"op": "new_atom", "b": bytes_json(&gen_atom(&mut r))})),
+                }
+                for op in script {
+                    alive = alive && step(out, &mut s, &op);
+                }
+                let kept = s.h.len();
+                let garbage = r.range(1030, 1200) as usize;
+                alive = alive && step(out, &mut s, &json!({"op": "new_atom", "b": bytes_json(&vec![0x55; garbage])}));
+                if alive && s.live[kept - 1] {
+                    let cp = s.cps.len();
+                    alive = step(out, &mut s, &json!({"op": "maybe_restore", "cp": cp, "n": kept}));
+                }
+                if !alive {
+                    break;
+                }
+            }
             let gc_bias = matches!(s.cps.last(), Some(Cp::Transp(_, n)) if *n + 2 >= s.h.len()) && hl > 1500;
             let near_heap = s.a.heap_size() as u64 + 2 >= hl;
             let op = gen_op(&mut r, &s, &w, gc_bias, near_heap);
